@@ -66,10 +66,20 @@ theorem stepIter_q {sh sh' : Shared} {t : Tid} {it it' : Iter}
     · simp only [Option.some.injEq, Prod.mk.injEq] at h
       obtain ⟨_, rfl⟩ := h
       simp
-  · split at h <;> (
-      simp only [Option.some.injEq, Prod.mk.injEq] at h
+  · unfold step138 at h
+    split at h
+    · simp only [Option.some.injEq, Prod.mk.injEq] at h
       obtain ⟨_, rfl⟩ := h
-      simp)
+      simp
+    · split at h
+      · simp only [Option.some.injEq, Prod.mk.injEq] at h
+        obtain ⟨_, rfl⟩ := h
+        simp
+      · unfold step138ok at h
+        split at h <;> (
+          simp only [Option.some.injEq, Prod.mk.injEq] at h
+          obtain ⟨_, rfl⟩ := h
+          simp)
   · cases h
 
 /-- thread `t` may run: the invariant holds and every OTHER thread is outside the critical section -/
